@@ -70,8 +70,8 @@ func (p *Parser) parseNext() error {
 
 	c := p.data[p.pos]
 
-	// Check for potential operator (starts with letter)
-	if isLetter(c) {
+	// Check for potential operator (starts with a letter, or is the ' or " operator)
+	if isLetter(c) || c == '\'' || c == '"' {
 		return p.parseOperator()
 	}
 
@@ -91,16 +91,16 @@ func (p *Parser) parseNext() error {
 func (p *Parser) parseOperator() error {
 	start := p.pos
 
-	// Read operator name (letters and possibly quotes for special operators)
+	// Read operator name: a run of regular characters, ended by white space
+	// or a delimiter (covers T*, ', ", d0, d1, ...)
 	var op bytes.Buffer
 	for p.pos < len(p.data) {
 		c := p.data[p.pos]
-		if isLetter(c) || c == '\'' || c == '"' || c == '*' {
-			op.WriteByte(c)
-			p.pos++
-		} else {
+		if isWhitespace(c) || isDelimiter(c) {
 			break
 		}
+		op.WriteByte(c)
+		p.pos++
 	}
 
 	operator := op.String()
